@@ -96,6 +96,18 @@ class Chk:
 				else:
 					ctx.seen('rejection_error_types', res[1])
 			ctx.count('invalid_kmers_rejected_or_flagged')
+			# the same invalid k-mer through the other input types (text, bytearray, Bio.Seq): still rejected by both encoders
+			if types or self.rot % 5 == 0:
+				objs = [('bytearray', bytearray(s)), ('Seq', self.Seq(s))] + ([('str', s.decode('ascii'))] if all(x < 128 for x in s) else [])
+				for tn, obj in objs:
+					for fn in (gk.kmer_to_index, gk.kmer_to_index_rc):
+						res = self._call(fn, obj)
+						ctx.evals += 1
+						ctx.count(f'invalid_type:{tn}')
+						if res[0] == 'ok':
+							mech = 'accepts-too-long' if len(s) > 32 and all(x in VALID for x in s) else 'accepts-invalid'
+							ctx.violation(mech, f'{fn.__name__}({tn} {s!r}) returned {res[1]} instead of raising', dict(w, type=tn))
+			self.rot += 1
 		if types and valid:
 			exp = S.kmer_index(s)
 			for tn, obj in (('str', s.decode('ascii')), ('bytearray', bytearray(s)), ('Seq', self.Seq(s))):
@@ -241,6 +253,13 @@ def run_shard(sh, ctx):
 			c.text_kmer(junk + 'ACGT')
 			c.text_kmer('A' * 32 + junk)
 			c.text_kmer('A' * 16 + junk + 'C' * 16)
+		# letters that other tools treat as nucleotides (RNA U, IUPAC ambiguity codes, gap characters): not k-mer letters here, whatever
+		# the input type
+		for ch_ in b'UuRrYyKkMmSsWwBbDdHhVvNn-.*Xx':
+			x = bytes([ch_])
+			for s in (x, b'AC' + x, x + b'AC', b'A' + x + b'C', b'A' * 31 + x, b'ACGTTGCA' + x + b'ACG'):
+				c.kmer(s, types=True)
+			ctx.count('nucleotide_lookalike_letters')
 		for L in range(33, 41):
 			c.kmer(b'A' * L)
 			c.kmer((b"ACGT" * 10)[:L])
@@ -249,7 +268,7 @@ def run_shard(sh, ctx):
 
 def finalize(merged, tier, seed, inconclusive):
 	c = merged['counters']
-	for n in ['valid_kmers', 'invalid_kmers_rejected_or_flagged', 'roundtrips', 'index_roundtrips', 'revcomp_calls', 'too_long_kmers', 'type:str', 'type:Seq', 'type:bytearray', 'invalid_text_kmers', 'composed_roundtrips', 'index_type:np.u8', 'index_type_above_2^53:np.u8', 'index_type:np.u1']:
+	for n in ['valid_kmers', 'invalid_kmers_rejected_or_flagged', 'roundtrips', 'index_roundtrips', 'revcomp_calls', 'too_long_kmers', 'type:str', 'type:Seq', 'type:bytearray', 'invalid_text_kmers', 'composed_roundtrips', 'invalid_type:Seq', 'invalid_type:str', 'index_type:np.u8', 'index_type_above_2^53:np.u8', 'index_type:np.u1']:
 		if c.get(n, 0) == 0:
 			inconclusive.append(f'class never observed: {n}')
 	merged['notes'].setdefault('sanitizer_stage', {})
